@@ -10,10 +10,12 @@ import (
 	"pgregory.net/rapid"
 
 	"verif/internal/cat"
+	"verif/internal/cli"
 	"verif/internal/gen"
 	"verif/internal/harness"
 	"verif/internal/hostile"
 	"verif/internal/spec"
+	"verif/internal/xport"
 )
 
 func TestMain(m *testing.M) { harness.Main(m) }
@@ -264,6 +266,106 @@ var chkExc = harness.Define("exception-frames",
 	func(t *rapid.T) excCase {
 		return excCase{Framing: gen.Framing(t), FC: rapid.Uint8Range(0, 127).Draw(t, "fc"), Code: rapid.Uint8().Draw(t, "code"), Unit: rapid.Uint8().Draw(t, "unit"), Tx: rapid.Uint16().Draw(t, "tx")}
 	}, runExc)
+
+// ---------------------------------------------------------------------------
+// exception frames delivered through the clients: the same frames, received as the reply to a request by the TCP client and by the
+// RTU-over-network client (which find the end of the reply and call the parsers above)
+
+type excClientCase struct {
+	Kind string   `json:"kind"` // tcp | rtu-net
+	Req  spec.Req `json:"req"`
+	Code uint8    `json:"code"`
+	// Cut: 0 = the frame arrives in one read (what the generator produces); k > 0 = the first read delivers k bytes, the next one the rest
+	Cut int `json:"cut,omitempty"`
+}
+
+func runExcClient(c excClientCase) harness.Result {
+	f := cli.FramingOf(c.Kind)
+	frame := spec.EncodeResponse(f, spec.Resp{FC: c.Req.FC, Unit: c.Req.Unit, Tx: c.Req.Tx, IsException: true, Code: c.Code})
+	ev := []xport.Event{{Kind: "data", N: len(frame)}}
+	if c.Cut > 0 && c.Cut < len(frame) {
+		ev = []xport.Event{{Kind: "data", N: c.Cut}, {Kind: "data", N: len(frame) - c.Cut}}
+	}
+	ev = append(ev, xport.Event{Kind: "ioerr"}) // backstop: no verdict depends on a timeout
+	o := cli.Run(cli.Scenario{Kind: c.Kind, Req: c.Req, Stream: frame, Events: ev, ReadTimeoutMs: 300})
+	if o.Panic != nil {
+		return harness.Fail("client panicked on exception reply %x: %v", frame, o.Panic)
+	}
+	if o.Hung {
+		return harness.Fail("client did not return after exception reply %x", frame)
+	}
+	if o.Err == nil {
+		return harness.Fail("%s client returned a response (%v) and no error for the exception reply %x", c.Kind, o.Resp, frame)
+	}
+	if !cat.IsNilValue(o.Resp) {
+		return harness.Fail("%s client returned the value %v together with the error for the exception reply %x", c.Kind, o.Resp, frame)
+	}
+	if f == spec.TCP {
+		var e *packet.ErrorResponseTCP
+		if !errors.As(o.Err, &e) {
+			return harness.Fail("tcp client, exception reply %x (cut %d): error %T %q is not *ErrorResponseTCP", frame, c.Cut, o.Err, o.Err)
+		}
+		if e.TransactionID != c.Req.Tx || e.UnitID != c.Req.Unit || e.Function != c.Req.FC || e.Code != c.Code {
+			return harness.Fail("tcp client: exception %+v does not carry tx=%d unit=%d fc=%d code=%d", *e, c.Req.Tx, c.Req.Unit, c.Req.FC, c.Code)
+		}
+	} else {
+		var e *packet.ErrorResponseRTU
+		if !errors.As(o.Err, &e) {
+			return harness.Fail("rtu client, exception reply %x (cut %d): error %T %q is not *ErrorResponseRTU", frame, c.Cut, o.Err, o.Err)
+		}
+		if e.UnitID != c.Req.Unit || e.Function != c.Req.FC || e.Code != c.Code {
+			return harness.Fail("rtu client: exception %+v does not carry unit=%d fc=%d code=%d", *e, c.Req.Unit, c.Req.FC, c.Code)
+		}
+	}
+	return harness.Result{NonTrivial: true, Labels: []string{"exception-through-client", "kind:" + c.Kind, fmt.Sprintf("fc%d", c.Req.FC)}}
+}
+
+var chkExcClient = harness.Define("exception-through-client",
+	func(t *rapid.T) excClientCase {
+		c := excClientCase{Kind: rapid.SampledFrom([]string{cli.TCP, cli.RTUNet}).Draw(t, "kind"), Code: rapid.Uint8().Draw(t, "code")}
+		if rapid.Bool().Draw(t, "usual_code") {
+			c.Code = rapid.SampledFrom([]uint8{1, 2, 3, 4, 5, 6, 8, 10, 11}).Draw(t, "code_usual")
+		}
+		c.Req = gen.LegalReq(t, gen.FC(t), true)
+		if c.Req.FC == 23 && c.Req.Qty > 124 {
+			c.Req.Qty = 124 // (125 is refused by the constructor: C01's listed finding)
+		}
+		// (how the clients find the end of a reply that arrives in pieces is C07's subject and has listed findings for FC17 and for
+		// RTU framing: here the frame always arrives in one read)
+		return c
+	}, runExcClient)
+
+func TestExceptionThroughClient(t *testing.T) {
+	chkExcClient.Rapid(t, harness.Pick(1500, 60000))
+	// every exception code x every function x both clients, in one read
+	idx := 0
+	for _, kind := range []string{cli.TCP, cli.RTUNet} {
+		for _, fc := range []uint8{1, 2, 3, 4, 5, 6, 15, 16, 17, 23} {
+			idx++
+			if !harness.Mine(idx) {
+				continue
+			}
+			for code := 0; code < 256; code += harness.Pick(5, 1) {
+				r := spec.Req{FC: fc, Unit: 7, Tx: 0x0102, Addr: 3, Qty: 2, WAddr: 1, WQty: 1, ByteCount: 2, Payload: []byte{0x12, 0x34}}
+				switch fc {
+				case 5:
+					r.Value = 0xFF00
+				case 6:
+					r.Value = 0x1234
+				case 15:
+					r.Qty, r.ByteCount, r.Payload = 2, 1, []byte{3}
+				case 16:
+					r.Qty = 1
+				case 17:
+					r = spec.Req{FC: 17, Unit: 7, Tx: 0x0102}
+				}
+				if !chkExcClient.EvalFast(t, excClientCase{Kind: kind, Req: r, Code: uint8(code)}) {
+					return
+				}
+			}
+		}
+	}
+}
 
 // ---------------------------------------------------------------------------
 // frames whose length disagrees with their own byte-count field
